@@ -10,7 +10,7 @@ CONSTANTS
   Policy <- PolMixed
   NSteps = 2
   Dt = 1
-  OutEvery = 2
+  OutDt = 2
   Events <- NoEvents
   WithEstimation = TRUE
   WithSerendipity = FALSE
@@ -20,6 +20,7 @@ CONSTANTS
   KeepMissedAcrossSteps = FALSE
   PriorityToAllEngines = FALSE
   PruneKeepsEqual = FALSE
+  PartialCommit = FALSE
 INVARIANT OneRecordPerTasking
 INVARIANT NoRecordWithoutTasking
 INVARIANT PointingReflectsTasking
